@@ -1382,7 +1382,9 @@ impl Op {
                 let (is_one, is_x) = match (x.as_ref(), y.as_ref()) {
                     (Value::U64(x), Value::U64(y)) => {
                         let is_one = (x.payload & !x.mask_xz != 0) && (y.payload & !y.mask_xz != 0);
-                        let is_x = x.mask_xz != 0 || y.mask_xz != 0;
+                        // A known-false operand decides 0 whatever the other is (LRM 11.4.7).
+                        let is_zero = (x.payload | x.mask_xz == 0) || (y.payload | y.mask_xz == 0);
+                        let is_x = (x.mask_xz != 0 || y.mask_xz != 0) && !is_zero;
 
                         (is_one, is_x)
                     }
@@ -1391,7 +1393,9 @@ impl Op {
                         let y_mask = mask_cache.get(y.width as usize);
                         let is_one = (x.payload() & (x.mask_xz() ^ x_mask) != b0())
                             && (y.payload() & (y.mask_xz() ^ y_mask) != b0());
-                        let is_x = x.mask_xz() != &b0() || y.mask_xz() != &b0();
+                        let is_zero = (x.payload() | x.mask_xz() == b0())
+                            || (y.payload() | y.mask_xz() == b0());
+                        let is_x = (x.mask_xz() != &b0() || y.mask_xz() != &b0()) && !is_zero;
 
                         (is_one, is_x)
                     }
